@@ -9,7 +9,10 @@ from pyvc import tys as T
 
 F = "maze_dataset/dataset/dataset.py"
 _DIFF = "cfg.diff(result.cfg, of_serialized=True)"
-_TOLERATED = ("{'applied_filters': {'self': [], 'other': [{'name': 'collect_generation_meta', 'args': (), 'kwargs': {}}]}}")
+# the one tolerated difference: the stored configuration records, AFTER exactly the requested filters, the collect_generation_meta entry that the minimal
+# storage formats add on save - and nothing else differs
+_TOLERATED = (f"(list({_DIFF}.keys()) == ['applied_filters'] and {_DIFF}['applied_filters']['other'] == list({_DIFF}['applied_filters']['self'])"
+              " + [{'name': 'collect_generation_meta', 'args': (), 'kwargs': {}}])")
 _FRESH = "cls.generate(cfg, verbose=False, **kwargs)._apply_filters_from_config()"
 
 
@@ -24,7 +27,7 @@ class from_config:
     ensures = {
         # (a) whatever is returned has the requested configuration in every compared field, up to the one tolerated difference
         #     (cfg.diff ignores exactly the maze count) - unless the caller asked for a warning instead of an error
-        "C11.config-matches": f"(not {_DIFF}) or (allow_generation_metadata_filter_mismatch and {_DIFF} == {_TOLERATED}) or (not except_on_config_mismatch)",
+        "C11.config-matches": f"(not {_DIFF}) or (allow_generation_metadata_filter_mismatch and {_TOLERATED}) or (not except_on_config_mismatch)",
         # (b) nothing was read successfully (no file, or read raised) and nothing downloaded: the result is a fresh generation with the configured filters applied
         "C11.regenerates": f"implies(n_calls('generate') == 1, same_value(result, {_FRESH}))",
         "C11.generate-at-most-once": "n_calls('generate') <= 1 and n_calls('read') <= 1",
